@@ -259,7 +259,27 @@ fn lane_history(ctx: &mut Ctx) {
                 "C02" => mon::check_c02(&mut h, ctx),
                 "C03" => {}
                 "C04" => mon::check_c04(&mut h, ctx, limit, 4),
-                "C05" => mon::check_c05(&mut h, ctx, limit, &[], 3),
+                "C05" => {
+                    // hostile address strings: other case, other network, spaces, garbage
+                    let mut extra: Vec<String> = vec![];
+                    if h.rng.chance(1, 4) {
+                        let a = h.uni.addrs[2].text.clone(); // p2wpkh (bech32)
+                        extra.push(a.to_uppercase());
+                        let mut mixed = a.clone();
+                        if let Some(c) = mixed.pop() {
+                            mixed.push(c.to_ascii_uppercase());
+                        }
+                        extra.push(mixed);
+                        extra.push(format!(" {}", a));
+                        extra.push(String::new());
+                        extra.push("bc1qw508d6qejxtdg4y5r3zarvary0c5xw7kv8f3t4".into());
+                        extra.push("tb1qw508d6qejxtdg4y5r3zarvary0c5xw7kxpjzsx".into());
+                        extra.push("1BvBMSEYstWetqTFn5Au4m4GFg7xJaNVN2".into());
+                        extra.push("not an address".into());
+                        ctx.cov.count("c05_states_with_hostile_address_strings");
+                    }
+                    mon::check_c05(&mut h, ctx, limit, &extra, 3)
+                }
                 "C07" => mon::check_c07(&mut h, ctx, false, 40),
                 "C15" => {
                     if let Some(mut f) = h.fee.take() {
